@@ -126,7 +126,14 @@ def invoke(fn, names_, args, environment, pos):
     try:
         return fn.execute(args_, environment, pos)
     except CklRuntimeError as e:
-        e.stacktrace.append(getFuncallString(fn, args_) + " " + str(pos))
+        # rendering the arguments for the trace entry may itself fail (an
+        # object whose _str_ member raises): the error on its way out must
+        # not be replaced by that
+        try:
+            entry = getFuncallString(fn, args_)
+        except Exception:
+            entry = f"{fn.name}(...)"
+        e.stacktrace.append(entry + " " + str(pos))
         raise
     except CklSyntaxError as e:
         raise CklRuntimeError(ValueString("ERROR"), e.msg, pos)
